@@ -496,6 +496,18 @@ def judge(sc, res):
                 bad.append(('commands-after-stop', '{} device commands after the stop request had '
                             'been carried out (at most {} allowed: the instruction in progress)'
                             .format(len(after), allowed)))
+        # from the moment the stop STARTS to take effect (the requester's first write to one of
+        # the run flags) the job may finish the instruction in progress, nothing more — also
+        # when the requester is held up in the middle of the stop
+        effect = [f for f in res.flags if f[1] == 'R' and not f[3]
+                  and f[2] in ('_keep_running', '_keep_going')]
+        if effect and not rearmed:
+            during = [c for c in a_cmds if c[0] >= effect[0][0]]
+            if len(during) > 1:
+                bad.append(('commands-while-stop-in-progress',
+                            '{} device commands after the stop had begun to take effect ({} := '
+                            'False by the requester); at most the instruction in progress is '
+                            'allowed'.format(len(during), effect[0][2])))
         # promptly: a delay or time-of-day wait in progress is given up, not sat out — the job
         # thread ends within one tick of the stop having been carried out
         hit_a = any(f[1] == 'R' and f[2] == '_keep_running' and f[4] == id(res.job_a._machine)
